@@ -3,7 +3,7 @@
    forexpand.go (run against gmars on every run: hook kind 21 and whole programs),
    Render.unroll the manual unrolling of an abstract program. *)
 From GM Require Import Base Text Token Lexer Scanner ExprSpec ExprEval ForExpand Parser Compile Sim Prog Meaning Render AsmSpec
-     C05Lexer C05Expander C08Proof C08Block C08Scan C08Passes C08Flat.
+     C05Lexer C05Expander C08Proof C08Block C08Scan C08Passes C08Flat C03Parse C03Compile C03Flat C08Subst.
 From Coq Require Import Lia.
 Open Scope N_scope.
 
@@ -286,6 +286,23 @@ Theorem C08_counter_block_unrolls_partial :
     unrolls cfg (S k) (flat_map pl_toks pre ++ (mkT tokText c :: forw :: es ++ [nlt]) ++ flat_map bl_toks body ++ rofw :: skip ++ (nlt :: rest ++ [tEOF])) final.
 Proof. exact counter_block_unrolls. Qed.
 Print Assumptions C08_counter_block_unrolls_partial.
+
+(* the link to the abstract unrolling, for one line: replacing the counter word by the number j in the tokens of a
+   rendered instruction line (what the expander does) gives the rendering of the line with the counter replaced by the
+   literal j in its operand expressions (what Render.unroll does: subst_item) - for every expression, mode and mnemonic *)
+Theorem C08_copy_renders_partial :
+  forall spell spellc cid c, spellc cid = c -> (forall id, id <> cid -> spellc id = spell id /\ spell id <> c) ->
+  forall j l t, il_labels l = [] -> renders_line spellc l t ->
+    match subst_elem c j (LInstr t) with
+    | LInstr t' => renders_line spell (subst_line cid (Z.of_N j) l) t' /\
+                   Render.subst_item 1 cid (Z.of_N j) (IInstr l) = IInstr (subst_line cid (Z.of_N j) l)
+    | _ => False
+    end.
+Proof.
+  intros spell spellc cid c Hc Ho j l t Hl Hr. pose proof (copy_renders spell spellc cid c Hc Ho j l t Hl Hr) as H.
+  cbn [subst_elem] in *. split; [exact H|reflexivity].
+Qed.
+Print Assumptions C08_copy_renders_partial.
 
 (* missing: that the token-level relation `unrolls` holds between the rendering of an abstract program and the
    rendering of its unrolling (Render.unroll) for every program - each instance is a finite derivation like the
